@@ -2,7 +2,7 @@ import DoitModel.Proofs.C11Final
 /-! # C11 — setup-tasks are lazy; teardowns run once, in reverse order
 
 Property theorems only.  Base model: `Model/Run.lean` (dispatcher + the three runners); teardown bookkeeping of every
-executing entity: `Model/RunTeardown.lean` (`TSys`, `tstep`, `TReach`; `Variant` `{}` = /repo HEAD).  Helper lemmas:
+executing entity: `Model/RunTeardown.lean` (`TSys`, `tstep`, `TReach`; `Variant` `{}` = /repo HEAD, the switches select the pinned behaviours).  Helper lemmas:
 `Proofs/C11*.lean`, `Proofs/Run*.lean`.  Quantification: every task table, selection, oracle (status / ignore / outcome /
 failing teardowns), flag, set-iteration order, worker interleaving, every reachable state (every prefix of every run).
 `events` / `log` are newest first; `.reverse` is chronological. -/
@@ -162,13 +162,14 @@ theorem C11_teardown_process_exact (inp : RunInput) (tdFail : Name → Bool) (v 
   · rw [h.logW w, if_pos x, List.reverse_reverse, h.own w]
   · rw [h.logW w, if_neg x]
 
-/-- a run that ends without an internal error has let every started worker process exit (so the statement above
-    speaks about all of them), and the main process dies exactly when some worker's loop hit a failing teardown -/
+/-- a run that ends without an internal error has let every started worker process exit (so the statements about
+    exited workers speak about all of them); only on the pinned tree does the main process die of a teardown, exactly
+    when some worker's loop hit a failing one -/
 theorem C11_teardown_process_all_exited (inp : RunInput) (tdFail : Name → Bool) (v : Variant) (ts : TSys)
     (hr : TReach inp tdFail v ts) (hp : inp.runner = .process) (hend : ts.base.rpc = .halted)
     (hok : ts.base.halt = .none) (w : Nat) :
     (ts.base.workers w = .exited ∨ (ts.base.workers w = .notStarted ∧ startOrderOf inp w ts.base.events = [])) ∧
-    (ts.crashed = true ↔ (v.procFixed = false ∧
+    (ts.crashed = true ↔ (v.pinnedProcess = true ∧
       ∃ k, ts.base.workers k = .exited ∧ (startOrderOf inp k ts.base.events).any tdFail = true)) := by
   have h := treach_tdP hp hr
   constructor
@@ -180,41 +181,50 @@ theorem C11_teardown_process_all_exited (inp : RunInput) (tdFail : Name → Bool
     · rintro ⟨a, k, b, c⟩; exact ⟨a, k, b, by rw [← h.own k]; exact c⟩
     · rintro ⟨a, k, b, c⟩; exact ⟨a, k, b, by rw [h.own k]; exact c⟩
 
-/-- C11 (teardown) for the process runner at full strength.  FALSE of /repo HEAD (see the counterexample below, open
-    finding `process-teardown-failure`). -/
-def C11_teardown_process_full : Prop :=
-  ∀ (inp : RunInput) (tdFail : Name → Bool) (ts : TSys), TReach inp tdFail {} ts → inp.runner = .process →
+/-- C11 (teardown) for the process runner at full strength, stated for a variant of the code -/
+def TeardownProcessHolds (v : Variant) : Prop :=
+  ∀ (inp : RunInput) (tdFail : Name → Bool) (ts : TSys), TReach inp tdFail v ts → inp.runner = .process →
     ∀ w, ts.base.workers w = .exited →
       (logOf (some w) ts.log).reverse = teardownRun tdFail (some w) (startOrderOf inp w ts.base.events)
 
-/-- what is true of HEAD: the full statement for every worker none of whose own tasks has a failing teardown.
-    Missing for the full statement: a failing teardown inside a worker process raises out of that worker's loop
-    (`MReporter.cleanup_error`), the teardowns of the tasks it started earlier are lost. -/
-theorem C11_teardown_process_partial (inp : RunInput) (tdFail : Name → Bool) (ts : TSys)
-    (hr : TReach inp tdFail {} ts) (hp : inp.runner = .process) (w : Nat) (hx : ts.base.workers w = .exited)
-    (hnf : ∀ t ∈ startOrderOf inp w ts.base.events, tdFail t = false) :
-    (logOf (some w) ts.log).reverse = teardownRun tdFail (some w) (startOrderOf inp w ts.base.events) := by
-  rw [(C11_teardown_process_exact inp tdFail {} ts hr hp w).1 hx]
-  simp only [workerTeardown]
-  rw [teardownRun_noFail tdFail (some w) _ hnf,
-    teardownAbort_noFail tdFail (some w) _ (fun t ht => hnf t (List.mem_reverse.mp ht))]
-  simp
-
-/-- with the repair proposed in findings/pending/C11-process-teardown-failure.md (`Variant.procFixed`) the full
-    statement holds, and the main process never dies of a teardown -/
-theorem C11_teardown_process_fixed (inp : RunInput) (tdFail : Name → Bool) (v : Variant) (hv : v.procFixed = true)
-    (ts : TSys) (hr : TReach inp tdFail v ts) (hp : inp.runner = .process) (w : Nat)
-    (hx : ts.base.workers w = .exited) :
+/-- C11 (teardown) for the process runner, /repo HEAD: when worker process `w` has exited, its teardown executions
+    are, in chronological order, exactly `Runner.teardown` over the tasks with teardown whose actions started on `w`:
+    reverse start order, each exactly once, a failing teardown is followed by its error report and does not remove the
+    later ones; and the run does not die of it.  (True since "fix: teardown failure on a sub-process is reported instead
+    of crashing the run"; before, see `pinned_process_teardown_counterexample`.) -/
+theorem C11_teardown_process (inp : RunInput) (tdFail : Name → Bool) (ts : TSys) (hr : TReach inp tdFail {} ts)
+    (hp : inp.runner = .process) (w : Nat) (hx : ts.base.workers w = .exited) :
     (logOf (some w) ts.log).reverse = teardownRun tdFail (some w) (startOrderOf inp w ts.base.events) ∧
     ts.crashed = false := by
   refine ⟨?_, ?_⟩
-  · rw [(C11_teardown_process_exact inp tdFail v ts hr hp w).1 hx]; simp [workerTeardown, hv]
+  · rw [(C11_teardown_process_exact inp tdFail {} ts hr hp w).1 hx]; simp [workerTeardown]
   · have h := (treach_tdP hp hr).crash
     cases hc : ts.crashed with
     | false => rfl
-    | true => have := (h.mp hc).1; rw [hv] at this; cases this
+    | true => have := (h.mp hc).1; cases this
 
-/-! ### counterexamples (replayed on the implementation: corpus/C11/) -/
+theorem C11_teardown_process_holds : TeardownProcessHolds {} :=
+  fun inp tdFail ts hr hp w hx => (C11_teardown_process inp tdFail ts hr hp w hx).1
+
+/-- each exactly once, per worker: the number of teardown executions of task `n` by worker `w` is the number of
+    starts of `n` on `w` if `n` has teardown actions (0 otherwise) — at most one by `C02_at_most_once_parallel` -/
+theorem C11_teardown_once_process (inp : RunInput) (tdFail : Name → Bool) (ts : TSys) (hr : TReach inp tdFail {} ts)
+    (hp : inp.runner = .process) (w : Nat) (hx : ts.base.workers w = .exited) (n : Name) :
+    (logOf (some w) ts.log).count (TdEv.run n (some w)) = (startOrderOf inp w ts.base.events).count n := by
+  rw [← List.count_reverse, (C11_teardown_process inp tdFail ts hr hp w hx).1, count_run_teardownRun]
+
+/-- the monitor the driver evaluates on the implementation's observations holds of the model's own observations at
+    the end of a run without internal error (`k` ≥ number of started workers is not needed: the others are empty) -/
+theorem C11_teardown_monitor_process (inp : RunInput) (tdFail : Name → Bool) (ts : TSys) (hr : TReach inp tdFail {} ts)
+    (hp : inp.runner = .process) (hend : ts.base.rpc = .halted) (hok : ts.base.halt = .none) (w : Nat) :
+    logOf (some w) ts.log.reverse = teardownRun tdFail (some w) (startOrderOf inp w ts.base.events.reverse.reverse) := by
+  rw [List.reverse_reverse, ← logOf_reverse]
+  rcases (C11_teardown_process_all_exited inp tdFail {} ts hr hp hend hok w).1 with hx | ⟨hn, he⟩
+  · exact (C11_teardown_process inp tdFail ts hr hp w hx).1
+  · have hnx : ts.base.workers w ≠ .exited := by rw [hn]; simp
+    rw [(C11_teardown_process_exact inp tdFail {} ts hr hp w).2.1 hnx, he]; rfl
+
+/-! ### counterexamples: the two pinned behaviours (replayed on the implementation: corpus/C11/, seeded/revert-F-C11*) -/
 
 /-- three independent tasks with teardown, the teardown of task `1` fails; one worker process -/
 def exProc : RunInput :=
@@ -222,10 +232,12 @@ def exProc : RunInput :=
     runner := .process, numProc := 1, hasTeardown := fun _ => true }
 def exFail : Name → Bool := fun n => n == 1
 
-/-- /repo HEAD: worker 0 executes 0, 1, 2, then tears down 2 and 1 — 1 fails — and never 0; the main process dies -/
-theorem C11_teardown_process_counterexample : ¬ C11_teardown_process_full := by
+/-- the tree before "fix: teardown failure on a sub-process is reported instead of crashing the run" (found by this
+    check): worker 0 executes 0, 1, 2, then tears down 2 and 1 — 1 fails — and never 0; the main process dies.
+    Replayed on the implementation by corpus/C11/process-teardown-failure.json (seeded/revert-F-C11b). -/
+theorem pinned_process_teardown_counterexample : ¬ TeardownProcessHolds { pinnedProcess := true } := by
   intro hfull
-  obtain ⟨ts, hr, hp⟩ := tCheck_reach (inp := exProc) (tdFail := exFail) (v := {})
+  obtain ⟨ts, hr, hp⟩ := tCheck_reach (inp := exProc) (tdFail := exFail) (v := { pinnedProcess := true })
     (cs := defaultChoices exProc false false 400)
     (p := fun ts => decide (ts.base.workers 0 = .exited) && ts.crashed &&
       ((logOf (some 0) ts.log).reverse == [TdEv.run 2 (some 0), TdEv.run 1 (some 0)]) &&
@@ -237,6 +249,19 @@ theorem C11_teardown_process_counterexample : ¬ C11_teardown_process_full := by
   have := hfull exProc exFail ts hr rfl 0 hx
   rw [h1, h2] at this
   cases this
+
+/-- the same input at HEAD: all three teardowns, the error report, and the run goes on -/
+example : ∃ ts, TReach exProc exFail {} ts ∧ ts.base.workers 0 = .exited ∧ ts.crashed = false ∧
+    (logOf (some 0) ts.log).reverse =
+      [TdEv.run 2 (some 0), TdEv.run 1 (some 0), TdEv.err 1 (some 0), TdEv.run 0 (some 0)] := by
+  obtain ⟨ts, hr, hp⟩ := tCheck_reach (inp := exProc) (tdFail := exFail) (v := {})
+    (cs := defaultChoices exProc false false 400)
+    (p := fun ts => decide (ts.base.workers 0 = .exited) && !ts.crashed &&
+      ((logOf (some 0) ts.log).reverse ==
+        [TdEv.run 2 (some 0), TdEv.run 1 (some 0), TdEv.err 1 (some 0), TdEv.run 0 (some 0)]))
+    (by decide +kernel)
+  simp only [Bool.and_eq_true, decide_eq_true_eq, beq_iff_eq, Bool.not_eq_true'] at hp
+  exact ⟨ts, hr, hp.1.1, hp.1.2, hp.2⟩
 
 /-- two tasks with teardown, two worker threads -/
 def exThread : RunInput :=
